@@ -96,18 +96,19 @@ structure Table where
 /-- `Table.__init__(name, schema, alias=…)`.  `schema` is the argument as passed (the caller supplies the import-time
     `Schema()` when Python omits it); `cfgDefault` is what `Schema(schema_name)` reads at call time when the text before
     the last dot is empty.  Returns the table and whether the "schema param is ignored" warning was issued.
-    The alias defaults to the (already normalised) raw name and is normalised again — twice (models.py:65). -/
+    The alias defaults to the (already normalised) raw name, taken as it is (D50 repaired: it used to be normalised a second
+    time, which lower-cased a quoted mixed-case name); an explicit alias is normalised once. -/
 def Table.mk (name : Name) (schema : Schema) (cfgDefault : Name) (alias : Option Name := none) :
     Except NameErr (Table × Bool) :=
   match rsplitLast '.' name with
   | none =>
     let raw := escape name
-    .ok (⟨schema, raw, escape (alias.getD raw)⟩, false)
+    .ok (⟨schema, raw, match alias with | some a => escape a | none => raw⟩, false)
   | some (schemaName, tableName) =>
     if (splitOn '.' schemaName).length > 2 then .error .lineage
     else
       let raw := escape tableName
-      .ok (⟨Schema.mk? (some schemaName) cfgDefault, raw, escape (alias.getD raw)⟩, schema.isKnown)
+      .ok (⟨Schema.mk? (some schemaName) cfgDefault, raw, match alias with | some a => escape a | none => raw⟩, schema.isKnown)
 
 /-- `Table.__init__(name)` / `Table.__init__(name, schema)` after the repair of D17: an omitted schema is `None`, resolved to
     `Schema()` when the constructor runs (so it is the default configured at CALL time), and — being falsy — never
